@@ -36,6 +36,14 @@ def shards(tier, seed, quick_grids=1500, thorough_grids=60000, cat_quick='full')
 
 
 def report(ctx, mod, part, n, symptom, detail, judge, extra=(), case=None):
+    # bound the effort on a badly broken tree: after 8 minimised reports of one symptom in this shard the further
+    # occurrences are only counted (they would collapse into the same signatures anyway)
+    key = 'minimised reports: ' + symptom.split(':')[0]
+    if ctx.counters[key] >= 8:
+        ctx.count('further occurrences not minimised: ' + symptom.split(':')[0])
+        return
+    ctx.count(key)
+
     """Minimise the failing grid, attribute, and record a violation."""
     def fails(c):
         return judge(c)[0]
